@@ -239,6 +239,8 @@ pub struct H
     pub ewr_members: [HashMap<Entity, u8>; 2],
     pub base_entities: i64,
     pub callee_seq: u32,
+    /// invocations per callee function key (selects the callee script; kept outside system state)
+    pub callee_calls: [u32; 3],
     pub sys: Vec<Option<SysId>>,
 }
 
@@ -568,6 +570,25 @@ fn interp_basic(op: &Op, u: u32, c: &mut Commands, h: &mut H) -> Option<bool>
             c.queue(move |w: &mut World|
             {
                 { let mut h = w.resource_mut::<H>(); if let Some(m) = h.ewr_members[k as usize].get_mut(&e) { *m &= !mask; } }
+                let b = DynBundle::new(&sel);
+                if k == 0 { w.syscall(b, |In(b): In<DynBundle>, mut c: Commands, r: EntityReactor<T0>| { r.remove(&mut c, b); }); }
+                else { w.syscall(b, |In(b): In<DynBundle>, mut c: Commands, r: EntityReactor<T1>| { r.remove(&mut c, b); }); }
+            });
+        }
+        Op::EwrRemoveMany(k, parts) =>
+        {
+            let k = *k;
+            let mut sel: Vec<RTrig> = Vec::new();
+            let mut ents: Vec<(Entity, u8)> = Vec::new();
+            for (s, mask) in parts
+            {
+                let all = ewr_trigs(k, *s);
+                for (i, t) in all.iter().enumerate() { if mask & (1 << i) != 0 && sel.len() < MAX_BUNDLE { sel.push(h.resolve(t)); } }
+                ents.push((h.slots[*s as usize], *mask));
+            }
+            c.queue(move |w: &mut World|
+            {
+                { let mut h = w.resource_mut::<H>(); for (e, mask) in &ents { if let Some(m) = h.ewr_members[k as usize].get_mut(e) { *m &= !mask; } } }
                 let b = DynBundle::new(&sel);
                 if k == 0 { w.syscall(b, |In(b): In<DynBundle>, mut c: Commands, r: EntityReactor<T0>| { r.remove(&mut c, b); }); }
                 else { w.syscall(b, |In(b): In<DynBundle>, mut c: Commands, r: EntityReactor<T1>| { r.remove(&mut c, b); }); }
@@ -956,6 +977,7 @@ fn run_inner(prog: &Arc<Program>)
         ewr_members: [HashMap::new(), HashMap::new()],
         base_entities: 0,
         callee_seq: 0,
+        callee_calls: [0; 3],
         sys: vec![None; 4],
     };
     // world reactor system entities exist already (counted in `before`); learn nothing about them: they are framework-owned
